@@ -195,8 +195,8 @@ func boundaryLabel(r tldRef, t time.Time) string {
 
 func init() {
 	mon.Register(&mon.Check{
-		ID:   "C18",
-		Rule: "(a) structural invariant over every entry of the live compiled-in TLD table (hook VerifTLDMap); (b) util.HasValidTLD / IsInTLDMap against a reference built from that table, exhaustively for every entry at its delegation and removal instants -1s/0/+1s/+-1d, in lower/upper/mixed case, with label prefixes, trailing dots and near-miss labels; (c) e_dnsname_not_valid_tld on generated server-auth subscriber certificates (common name / dNSNames / IP common name mixes) dated at those instants: error <=> some non-IP CN or dNSName fails the reference at notBefore (NE before the lint's effective date). evaluations = API probes + table entries + certificates linted; distinct_nontrivial = table entries exercised.",
+		ID:          "C18",
+		Rule:        "(a) structural invariant over every entry of the live compiled-in TLD table (hook VerifTLDMap); (b) util.HasValidTLD / IsInTLDMap against a reference built from that table, exhaustively for every entry at its delegation and removal instants -1s/0/+1s/+-1d, in lower/upper/mixed case, with label prefixes, trailing dots and near-miss labels; (c) e_dnsname_not_valid_tld on generated server-auth subscriber certificates (common name / dNSNames / IP common name mixes) dated at those instants: error <=> some non-IP CN or dNSName fails the reference at notBefore (NE before the lint's effective date). evaluations = API probes + table entries + certificates linted; distinct_nontrivial = table entries exercised.",
 		Assumptions: []string{"the reference is built from the same live table the implementation reads, so a wrong table entry is only caught by the structural invariant (a)"},
 		Setup: func(c *mon.Ctx) error {
 			if err := setupCommon(c); err != nil {
